@@ -19,6 +19,13 @@ def colOverlap (A B : M α N N) (mo : Fin N) : α := vsum (fun r => A.get r mo *
 def signFix (coeff ref : M α N N) : M α N N :=
   Tab.ofFn (fun r mo => if colOverlap coeff ref mo < 0 then coeff.get r mo * (-1) else coeff.get r mo)
 
+/-- the eigenvector sets a trajectory tracks along a path of positions: `fresh` are the sets `eigh` returns at the
+    successive positions; each is sign-fixed against the set tracked at the previous position
+    (`model.update(x, electronics=previous)` step after step) -/
+def track (ref0 : M α N N) : List (M α N N) → List (M α N N)
+  | [] => []
+  | c :: cs => signFix c ref0 :: track (signFix c ref0) cs
+
 /-- `Cᵀ dV_x C` -/
 def rotated (dV : Fin n → M α N N) (coeff : M α N N) (x : Fin n) : M α N N :=
   mmul (mmul (mT coeff) (dV x)) coeff
